@@ -20,6 +20,7 @@ from harness.tlaparse import iter_dump_states
 MC_CFG = """SPECIFICATION %(spec)s
 CONSTANTS
   IgnorePatterns <- DataIgnorePatterns
+  EaExts <- DataEaExts
   SkipUnservable = TRUE
   SortedEnum = %(sorted)s
   DotRuleAll = %(dotrule)s
@@ -30,6 +31,7 @@ CHECK_DEADLOCK FALSE
 TR_CFG = """SPECIFICATION TSpec
 CONSTANTS
   IgnorePatterns <- DataIgnorePatterns
+  EaExts <- DataEaExts
   SkipUnservable = TRUE
   SortedEnum = TRUE
   DotRuleAll = %(dotrule)s
@@ -140,7 +142,7 @@ def selftest(traces, extra):
         for i in resp:
             e_["events"][i]["listing"] = e_["events"][i]["listing"] + [x for x in e_["events"][i]["listing"] if x["sel"] in kidsels][:1]
         bad += [a, b, c, e_] + ([d] if t["hidden"] else [])
-    tv = tlc.validate_traces("TraceC07", "TraceC07_run.cfg", bad, extra_files=extra)
+    tv = dl.validate_parallel("TraceC07", "TraceC07_run.cfg", bad, extra_files=extra)
     if tv["accepted"] != 0:
         rej = {r["trace"]["id"] for r in tv["rejected"]}
         raise core.MachineryError("C07 selftest: TraceC07 accepted %d corrupted traces: %s"
@@ -195,7 +197,7 @@ def main(chk, replay=None):
         raise core.MachineryError("C07: the substituted os.listdir did not hand out every permutation (%d of %d)"
                                   % (distinct_orders, sum(tr["norders"] for tr in traces)))
     # 4. TLC judges every trace
-    tv = tlc.validate_traces("TraceC07", "TraceC07_run.cfg",
+    tv = dl.validate_parallel("TraceC07", "TraceC07_run.cfg",
                              [{"id": tr["id"], "init": tr["init"], "events": tr["events"]} for tr in traces], extra_files=extra)
     rejected = set()
     classes = {}
